@@ -107,12 +107,20 @@ func (info *decodeInfo) decodeCharString(code []byte) (*Glyph, error) {
 	stage := stageStart
 
 	var storage []float64
+	nOps := 0
 	cmdStack := [][]byte{code}
 	for len(cmdStack) > 0 {
 		cmdStack, code = cmdStack[:len(cmdStack)-1], cmdStack[len(cmdStack)-1]
 
 	opLoop:
 		for len(code) > 0 {
+			// Nested subroutine calls can make a few bytes of input run for
+			// an astronomical number of steps.  Limit the total work.
+			nOps++
+			if nOps > maxOps {
+				return nil, invalidSince("charstring takes too long to execute")
+			}
+
 			if len(stack) > maxStack {
 				return nil, errStackOverflow
 			}
@@ -654,6 +662,10 @@ func fix(x float64) float64 {
 	}
 	return math.Round(x*65536) / 65536
 }
+
+// maxOps is the maximal number of operands and operators executed for one
+// glyph, including the contents of all subroutines called.
+const maxOps = 1 << 18
 
 func getSubr(subrs cffIndex, biased int) ([]byte, error) {
 	var offset int
